@@ -12,7 +12,7 @@ THEOREMS = [(M, "NQ.C08." + n) for n in [
     "branch_lands_on_expansion", "nongate_order", "scratch_ok", "transpile_simulates_partial",
     "transpile_simulates_final_partial", "pad_is_set", "set_writes_gen",
     "templates_eq_nvdecomp", "expandSound_of_C07", "transpile_simulates_C07_partial",
-    "mov_unknown_emits_ec", "f10_nonQ_register_asserts", "sets_only_scratch_gen", "seeded_scratch_registers",
+    "mov_unknown_emits_ec", "mov_sdk_shape_in_qstatic", "f10_nonQ_register_asserts", "sets_only_scratch_gen", "seeded_scratch_registers",
     "seeded_cache_violates_scratch_ok", "seeded_index_loop_head", "branch_to_line_zero", "seeded_line_zero",
     "transpile_pure", "transpile_retry_pure", "second_pass_identity_witness",
     "f10_counterexample_asserts", "f10_counterexample_stale", "f26_fixed_witness"]]
@@ -38,10 +38,10 @@ LEVEL_TEXT = (
     "model-free state-vector oracle on the real Executor.")
 LEVEL_NOTE = (
     "Trusted: Lean kernel; translate/nv_expand.py; harness/transpile.py. Gate correctness of each expansion is "
-    "the named hypothesis ExpandSound (C07's obligations); instruction semantics is abstract (locality/frame "
-    "hypotheses of Sem). QStatic excludes Q registers written by non-set instructions (F10, open) and the "
-    "SDK's multi-pair EPR `mov R R` (register values unknown to the pass; covered by correspondence and "
-    "oracle only).")
+    "discharged from C07 for the concrete semantics MQ (mov = partial transfer onto a |0> target, via C07 "
+    "mov_transfer); classical instruction semantics is abstract (locality/frame hypotheses of Sem). QStatic "
+    "excludes Q registers written by non-set instructions (F10, open); it includes the SDK's multi-pair EPR "
+    "`set R4 0; mov R4 R3`.")
 TECHNIQUE = ("Lean 4 proof (induction over the instruction list, relational Steps simulation) + generated data "
              "re-decided by the kernel + syntactic differential correspondence + state-vector oracle")
 TRUSTED = [
@@ -53,7 +53,8 @@ TRUSTED = [
     "register under any injective assignment of qubits to roles (scalar = global phase); a rotation depends only "
     "on its angle. gnameOf: class name -> mnemonic (C07's matrices stream ties mnemonics to published matrices)",
     "SemLocal for the classical instructions (an instruction reads only registers it names and writes only "
-    "writes_to()) is C04's; mov has no semantics in the concrete model MQ",
+    "writes_to()) is C04's; vanilla mov is the partial state transfer onto a |0> target (source left in the state "
+    "the device's move leaves it in), not the SWAP its to_matrix() publishes",
 ]
 ASSUMPTIONS = [
     "instructions are (class, operand values); lineno is ignored",
@@ -300,7 +301,7 @@ def run(ctx):
         syntactic("corpus", w_stale, dbg, False)
 
     # ---- structured programs: syntactic + oracle
-    n_struct = 12000 if T else 1300
+    n_struct = 12000 if T else 700
     for k in range(n_struct):
         nq = rng.choice([1, 2, 2, 3, 3, 4, 5])
         loads = rng.random() < 0.25
@@ -309,14 +310,14 @@ def run(ctx):
         for f in g.features:
             res.count("feature:" + f)
         dbg = rng.random() < 0.5
-        # programs with a run-time-id mov are outside QStatic by definition (own tag, oracle still runs)
+        # run-time-id movs: inside QStatic only when the source register was just set to 0 (own tag)
         tag = "struct-load" if loads else ("struct-movR" if "mov-runtime-ids" in g.features else
                                            ("struct-tgt" if any(f.startswith("target-is-") for f in g.features)
                                             else "struct"))
         syntactic(tag, js, dbg, rng.random() < 0.3)
         oracle(tag, js, nq, g, debug=dbg)
     # ---- loops whose head is instruction 0 (taken backward branch to line 0), in a second subroutine
-    n_head0 = 2500 if T else 300
+    n_head0 = 2500 if T else 150
     for k in range(n_head0):
         nq = rng.choice([1, 2, 3, 4])
         sub1, sub2, feats = H.head0_program(rng, nq)
@@ -375,7 +376,7 @@ def run(ctx):
                    H.ins("core.BgeInstruction", Rr(0), Rr(2), H.imm(6))]
         for kind in ("twice", "two-objs"):
             judge_history(kind, H.run_history(kind, w_plain, dbg, rng), 2, dbg)
-    n_hist = 1200 if T else 130
+    n_hist = 1200 if T else 90
     for k in range(n_hist):
         nq = rng.choice([2, 3, 3, 4])
         dbg = rng.random() < 0.6
@@ -416,7 +417,7 @@ def run(ctx):
     flush_syntactic()
 
     # ---- instruction soup (malformed stream included): syntactic only
-    n_soup = 40000 if T else 5000
+    n_soup = 40000 if T else 2500
     for k in range(n_soup):
         js = H.soup(rng, rng.choice([1, 2, 3, 5, 8, 13]))
         syntactic("soup", js, rng.random() < 0.5, rng.random() < 0.3)
@@ -425,7 +426,7 @@ def run(ctx):
     flush_syntactic()
 
     # ---- programs produced by the real SDK on a recording connection
-    n_sdk = 2500 if T else 300
+    n_sdk = 2500 if T else 150
     for k in range(n_sdk):
         nq = 5  # the SDK's default NV hardware config: ids 0..4 (it relocates the electron on demand)
         try:
